@@ -95,6 +95,7 @@ def observers (c : PCol Cell) : Json :=
     ("listOffsetsFirst", resJson ((fun o => jNat (o.headD 0)) <$> NArr.listOffsets c)),
     ("fieldNames", resJson ((jList Json.str) <$> NArr.fieldNames c)),
     ("getListIndex", resJson ((jList jNat) <$> NArr.getListIndex c)),
+    ("countRecords", resJson ((jList jNat) <$> NArr.countRecords c)),
     ("listStruct", resJson ((fun ls => Json.arr ((ls.map plsToJson).foldl (fun acc j =>
         match j with | .arr a => acc ++ a | _ => acc) #[])) <$> NArr.listArray c))]
 
@@ -116,6 +117,7 @@ def specObservers (c : LCol Cell) : Json :=
     ("listOffsetsFirst", resJson (pure (jNat 0))),
     ("fieldNames", resJson (pure (jList Json.str (c.ty.map (·.1))))),
     ("getListIndex", resJson (pure (jList jNat (Spec.listIndex c.rows)))),
+    ("countRecords", resJson (pure (jList jNat (Spec.lens c.rows)))),
     ("listStruct", resJson (pure (jList (fun (r : Row Cell) => match r with
         | none => rowToJson (some (c.ty.map fun p => (p.1, [])))
         | some t => rowToJson (some t)) c.rows)))]
